@@ -299,4 +299,193 @@ theorem blockCommentEndOrEof_le (k : BlockCommentKind) (trim : Nat) (l : Bytes) 
   · rename_i e he; exact (findBlockCommentEnd_le k l e he).2
   · omega
 
+
+theorem shiftEnd_ne_none (n : Nat) (x : Option (Option Nat)) (h : x ≠ none) : shiftEnd n x ≠ none := by
+  cases x with
+  | none => exact absurd rfl h
+  | some y => cases y <;> simp [shiftEnd]
+
+/-- the directive scanner does not run out of fuel when given more fuel than bytes -/
+theorem findDirectiveExprEnd_fuel (trim : Nat) (fuel : Nat) (kind : BlockCommentKind) (l : Bytes)
+    (hf : l.length < fuel) : findDirectiveExprEnd trim fuel kind l ≠ none := by
+  induction fuel generalizing kind l with
+  | zero => omega
+  | succ f ih =>
+    cases l with
+    | nil => simp [findDirectiveExprEnd]
+    | cons b0 r0 =>
+      have cont : ∀ n, 1 ≤ n → shiftEnd n (findDirectiveExprEnd trim f kind ((b0 :: r0).drop n)) ≠ none := by
+        intro n hn
+        apply shiftEnd_ne_none
+        apply ih
+        simp only [List.length_drop, List.length_cons] at *; omega
+      have nested : ∀ (skip : Nat) (k2 : BlockCommentKind) (r : Bytes), 1 ≤ skip → r.length < f →
+          (match (if isExprDirective (conditionalDirectiveType r).2
+                    then findDirectiveExprEnd trim f k2 (r.drop (conditionalDirectiveType r).1)
+                    else some (findBlockCommentEnd k2 (r.drop (conditionalDirectiveType r).1))) with
+            | none => (none : Option (Option Nat))
+            | some none => some none
+            | some (some e) =>
+              shiftEnd (skip + (conditionalDirectiveType r).1 + e)
+                (findDirectiveExprEnd trim f kind ((b0 :: r0).drop (skip + (conditionalDirectiveType r).1 + e)))) ≠ none := by
+        intro skip k2 r hs hr
+        have hin : findDirectiveExprEnd trim f k2 (r.drop (conditionalDirectiveType r).1) ≠ none := by
+          apply ih
+          simp only [List.length_drop]; omega
+        split
+        · rename_i hnone
+          split at hnone
+          · exact absurd hnone hin
+          · simp at hnone
+        · simp
+        · exact cont _ (by omega)
+      unfold findDirectiveExprEnd
+      simp only []
+      have hr0 : r0.length < f := by simp only [List.length_cons] at hf; omega
+      iterate 8
+        (split
+         (first
+          | (focus (simp; done))
+          | exact cont _ (by omega)
+          | (focus (rename_i hq; exact cont _ (textLiteral_pos b0 r0 (Or.inl (by simpa using hq)))))
+          | (focus (apply nested _ _ _ (by omega); simp only [List.length_drop]; omega))))
+      exact cont _ (by omega)
+
+/-- a found end lies inside the scanned text -/
+theorem findDirectiveExprEnd_le (trim : Nat) (fuel : Nat) (kind : BlockCommentKind) (l : Bytes) (e : Nat)
+    (h : findDirectiveExprEnd trim fuel kind l = some (some e)) : 1 ≤ e ∧ e ≤ l.length := by
+  induction fuel generalizing kind l e with
+  | zero => simp [findDirectiveExprEnd] at h
+  | succ f ih =>
+    cases l with
+    | nil => simp [findDirectiveExprEnd] at h
+    | cons b0 r0 =>
+      have cont : ∀ n e, 1 ≤ n → shiftEnd n (findDirectiveExprEnd trim f kind ((b0 :: r0).drop n)) = some (some e) →
+          1 ≤ e ∧ e ≤ (b0 :: r0).length := by
+        intro n e hn hs
+        cases hx : findDirectiveExprEnd trim f kind ((b0 :: r0).drop n) with
+        | none => rw [hx] at hs; simp [shiftEnd] at hs
+        | some y =>
+          cases y with
+          | none => rw [hx] at hs; simp [shiftEnd] at hs
+          | some e' =>
+            rw [hx] at hs; simp [shiftEnd] at hs
+            have := ih kind _ e' hx
+            simp only [List.length_drop] at this
+            omega
+      unfold findDirectiveExprEnd at h
+      simp only [] at h
+      have nested : ∀ (skip : Nat) (k2 : BlockCommentKind) (r : Bytes) (e : Nat), 1 ≤ skip →
+          (match (if isExprDirective (conditionalDirectiveType r).2
+                    then findDirectiveExprEnd trim f k2 (r.drop (conditionalDirectiveType r).1)
+                    else some (findBlockCommentEnd k2 (r.drop (conditionalDirectiveType r).1))) with
+            | none => (none : Option (Option Nat))
+            | some none => some none
+            | some (some e) =>
+              shiftEnd (skip + (conditionalDirectiveType r).1 + e)
+                (findDirectiveExprEnd trim f kind ((b0 :: r0).drop (skip + (conditionalDirectiveType r).1 + e)))) = some (some e) →
+          1 ≤ e ∧ e ≤ (b0 :: r0).length := by
+        intro skip k2 r e hs hm
+        split at hm
+        · simp at hm
+        · simp at hm
+        · exact cont _ _ (by omega) hm
+      iterate 2
+        (split at h
+         focus (
+          simp only [Option.some.injEq] at h; subst h;
+          rename_i hc;
+          simp only [Bool.and_eq_true, beq_iff_eq] at hc;
+          simp only [List.length_cons];
+          first
+            | omega
+            | (have : r0 ≠ [] := by (intro hn; simp [hn] at hc));
+              (have := List.length_pos_iff.2 this); omega))
+      iterate 6
+        (split at h
+         (first
+          | exact cont _ _ (by omega) h
+          | (focus (rename_i hq; exact cont _ _ (textLiteral_pos b0 r0 (Or.inl (by simpa using hq))) h))
+          | exact nested _ _ _ _ (by omega) h))
+      exact cont _ _ (by omega) h
+
+
+theorem conditionalDirectiveType_le (l : Bytes) : (conditionalDirectiveType l).1 ≤ l.length := by
+  unfold conditionalDirectiveType
+  exact countWhile_le _ _
+
+theorem parseDirectiveExpr_ne_none (trim : Nat) (kind : BlockCommentKind) (l : Bytes) :
+    (parseDirectiveExpr trim (directiveFuel l) kind l).2 ≠ none := by
+  unfold parseDirectiveExpr
+  simp only []
+  split
+  · apply shiftEnd_ne_none
+    apply findDirectiveExprEnd_fuel
+    unfold directiveFuel
+    simp only [List.length_drop]; omega
+  · apply shiftEnd_ne_none; simp
+
+theorem parseDirectiveExpr_le (trim fuel : Nat) (kind : BlockCommentKind) (l : Bytes) (e : Nat)
+    (h : (parseDirectiveExpr trim fuel kind l).2 = some (some e)) : 1 ≤ e ∧ e ≤ l.length := by
+  unfold parseDirectiveExpr at h
+  simp only [] at h
+  have hn := conditionalDirectiveType_le l
+  split at h
+  · cases hx : findDirectiveExprEnd trim fuel kind (l.drop (conditionalDirectiveType l).1) with
+    | none => rw [hx] at h; simp [shiftEnd] at h
+    | some y =>
+      cases y with
+      | none => rw [hx] at h; simp [shiftEnd] at h
+      | some e' =>
+        rw [hx] at h; simp [shiftEnd] at h
+        have := findDirectiveExprEnd_le _ _ _ _ _ hx
+        simp only [List.length_drop] at this
+        omega
+  · cases hx : findBlockCommentEnd kind (l.drop (conditionalDirectiveType l).1) with
+    | none => rw [hx] at h; simp [shiftEnd] at h
+    | some e' =>
+      rw [hx] at h; simp [shiftEnd] at h
+      have := findBlockCommentEnd_le _ _ _ hx
+      simp only [List.length_drop] at this
+      omega
+
+theorem compilerDirective_ne_none (trim : Nat) (kind : BlockCommentKind) (openLen tokLen : Nat) (l : Bytes) :
+    compilerDirective trim kind openLen tokLen l ≠ none := by
+  unfold compilerDirective
+  have := parseDirectiveExpr_ne_none trim kind l
+  split
+  · rename_i heq; rw [heq] at this; simp at this
+  · simp
+  · simp
+
+theorem compilerDirective_bounds (trim : Nat) (kind : BlockCommentKind) (openLen tokLen : Nat) (l : Bytes)
+    (n : Nat) (k : Option ConditionalDirectiveKind)
+    (h : compilerDirective trim kind openLen tokLen l = some (n, k))
+    (htok : tokLen = openLen + l.length) (htrim : trim < tokLen) : 1 ≤ n ∧ n ≤ tokLen := by
+  unfold compilerDirective at h
+  split at h
+  · simp at h
+  · rename_i tt e heq
+    simp only [Option.some.injEq, Prod.mk.injEq] at h
+    have := parseDirectiveExpr_le trim (directiveFuel l) kind l e (by rw [heq])
+    omega
+  · simp only [Option.some.injEq, Prod.mk.injEq] at h
+    omega
+
+theorem blockComment_bounds (trim : Nat) (kind : BlockCommentKind) (openLen tokLen : Nat) (nlb : Bool) (l : Bytes)
+    (htok : tokLen = openLen + l.length) (htrim : trim < tokLen) :
+    1 ≤ (blockComment trim kind openLen tokLen nlb l).1 ∧ (blockComment trim kind openLen tokLen nlb l).1 ≤ tokLen := by
+  unfold blockComment
+  split
+  · rename_i e he
+    have := findBlockCommentEnd_le _ _ _ he
+    simp only; omega
+  · simp only; omega
+
+theorem lineCommentEnd_le (l : Bytes) : lineCommentEnd l ≤ l.length := by
+  unfold lineCommentEnd
+  split
+  · rename_i o ho; exact Nat.le_of_lt (findIdx_lt _ _ _ ho)
+  · omega
+
 end Pasfmt
